@@ -467,7 +467,8 @@ def e2e_case(ctx: Ctx):
     # a 2^32 boundary at a random device time inside the scenario (it spans roughly 100..1500 us)
     epochs = [rng.randint(1, 3) * M32 - int(rng.randint(90, 1200) * f) + rng.choice([0, 0, 1, -1, 256]) for _ in range(R)]
     return {"tag": "e2e", "R": R, "groups": rng.choice([1, 2, 2]), "freq": f, "gen_seed": rng.randrange(1000),
-            "dev_epochs": epochs, "host_epochs": [float(rng.randrange(1 << 28, 1 << 31)) for _ in range(R)]}
+            "dev_epochs": epochs, "host_epochs": [float(rng.randrange(1 << 28, 1 << 31)) for _ in range(R)],
+            "torch_doc": rng.random() < 0.25}
 
 
 def run_e2e(case):
@@ -479,6 +480,12 @@ def run_e2e(case):
              ["--drop_globals", "--flow", "-t"]][case["gen_seed"] % 9]
     if case["R"] == 1:
         # a one-rank "collective" of the scenario builder has an empty peer list: not a well-formed flow input
+        extra = [x for x in extra if x != "--flow"]
+    if case.get("torch_doc"):
+        # the same events inside a torch-profiler style document (TORCH dialect: deviceProperties): device slices with
+        # TS1..TS5 are device slices whatever the dialect calls their category
+        files = {fn: {"schemaVersion": 1, "deviceProperties": [{"id": 0, "name": "AIU"}], "traceEvents": evs}
+                 for fn, evs in files.items()}
         extra = [x for x in extra if x != "--flow"]
     with contextlib.redirect_stdout(io.StringIO()):
         return stage.e2e([f"--freq={case['freq']}:1100", "--keep_prep"] + extra, files)
